@@ -371,6 +371,21 @@ def r4_mibcopy(chk):
     chk.ob('C20.R4', 'getMibRevision/own-directory-is-the-first-source', bool(okf), where(mod, adds[0]) if adds else
            where(mod, fn), 'the first source added must be FileReader(%s, ...), found %s' % (
                d, norm(first)[:70] if first is not None else None))
+    # a module without REVISION has revision None: strptime then raises TypeError, a malformed stamp ValueError; both
+    # mean "revision unknown -> oldest", neither may end the run
+    sp = [c for c in walk_no_nested(fn) if isinstance(c, ast.Call) and norm(c.func).endswith('strptime')]
+    okh = False
+    if sp:
+        from vt.cfg import enclosing_trys
+        for t in enclosing_trys(common.stmt_of(sp[0]), fn):
+            for h in t.handlers:
+                names = cr.handler_type_names(model, mod, h)
+                if h.type is None or any(x in ('Exception', 'BaseException') for x in names) or \
+                        ('TypeError' in names and 'ValueError' in names):
+                    okh = True
+    chk.ob('C20.R4', 'getMibRevision/missing-revision-tolerated', okh, where(mod, sp[0]) if sp else where(mod, fn),
+           'the strptime() of the revision must sit in a try that catches TypeError (no REVISION clause: None) as well '
+           'as ValueError (malformed stamp)')
     last = fn.body[-1]
     chk.ob('C20.R4', 'getMibRevision/unreadable-raises', isinstance(last, ast.Raise), where(mod, fn), '')
     comp = [c for c in walk_no_nested(fn) if isinstance(c, ast.Call) and isinstance(c.func, ast.Attribute) and
@@ -561,7 +576,7 @@ def t1_typestate(chk):
     """typestate analysis of compile() (rules/compile_ts.py): end-to-end bookkeeping invariants for an arbitrary
     module over every outcome of every component call"""
     from rules import compile_ts
-    compile_ts.ts_rule(chk, 'C20.T1', ['status-effect', 'abort', 'nowrite-switch'])
+    compile_ts.ts_rule(chk, 'C20.T1', ['status-effect', 'failed-pairing', 'missing-reported', 'abort', 'nowrite-switch'])
 
 
 
@@ -579,4 +594,39 @@ def r10_no_stray_files(chk):
                  'assigned and raises the writer error (C13.R4)', floor=4)
 
 
-RULES = [r1_exit_codes, r2_report, r3_options, r4_mibcopy, r5_statuses_backed_by_writes, r6_format_wiring, r7_argument_agreement, r8_failed_leaves_no_file, r9_wellformedness, t1_typestate, r10_no_stray_files]
+
+def r11_options_forwarded_under_their_names(chk):
+    """compile() and buildIndex() hand caller options on to the components as keyword arguments: the key read from the
+    options mapping is the keyword it is passed as (dstTemplate=options.get('dstTemplate'), ...), and the keys compile()
+    tests itself are the documented ones"""
+    model = chk.model
+    chk.doc('C20.R11', 'MibCompiler.compile / buildIndex: every keyword argument fed from the options mapping reads the key '
+                       'of the same name (X=options.get("X")); the keys compile() consults are exactly noDeps, rebuild, '
+                       'dryRun, dstTemplate, genTexts, textFilter, writeMibs, ignoreErrors (those mibdump sets, C20.R3)')
+    known = set(['noDeps', 'rebuild', 'dryRun', 'dstTemplate', 'genTexts', 'textFilter', 'writeMibs', 'ignoreErrors'])
+    seen = set()
+    n = 0
+    for mname in ('compile', 'buildIndex'):
+        o, fn = model.method(cr.COMPILER, 'MibCompiler', mname)
+        opt = fn.args.kwarg.arg if fn.args.kwarg else 'options'
+        for c in walk_no_nested(fn):
+            if isinstance(c, ast.Call) and isinstance(c.func, ast.Attribute) and c.func.attr == 'get' and \
+                    isinstance(c.func.value, ast.Name) and c.func.value.id == opt and c.args and \
+                    isinstance(c.args[0], ast.Constant):
+                key = c.args[0].value
+                seen.add(key)
+                par = getattr(c, '_parent', None)
+                if isinstance(par, ast.keyword) and par.arg is not None:
+                    n += 1
+                    chk.ob('C20.R11', '%s/%s=options.get(%r)' % (mname, par.arg, key), par.arg == key, where(o.mod, c),
+                           'the option %r is passed on as keyword %r' % (key, par.arg))
+                n += 1
+                chk.ob('C20.R11', '%s/reads option %s' % (mname, key), key in known, where(o.mod, c),
+                       'option key %r is not one of the documented options %s' % (key, sorted(known)))
+    missing = sorted(known - seen)
+    chk.ob('C20.R11', 'all documented options are consulted', not missing, cr.COMPILER,
+           'never read by compile()/buildIndex(): %s' % missing)
+    chk.floor('C20.R11', 12, 'option reads in compile() and buildIndex()')
+
+
+RULES = [r1_exit_codes, r2_report, r3_options, r4_mibcopy, r5_statuses_backed_by_writes, r6_format_wiring, r7_argument_agreement, r8_failed_leaves_no_file, r9_wellformedness, t1_typestate, r10_no_stray_files, r11_options_forwarded_under_their_names]
